@@ -2,6 +2,8 @@
 C10 — property theorems: bounds lemmas on the index-arithmetic models of `Model/C10.lean`
 (helper lemmas live in `Proofs/C10*.lean`).
 -/
+import Mahotas.Proofs.C10MiscLbp
+import Mahotas.Proofs.C10MiscDist
 import Mahotas.Proofs.C10Odometer
 import Mahotas.Proofs.C10Interp
 import Mahotas.Proofs.C10IWavelet
@@ -582,3 +584,164 @@ theorem C10_cwatershed_table_ok (shape : List Nat) (offs : List (List Int))
 
 example : (cwAccesses [2, 3] [[0, 1], [1, 0], [-1, -1]]).length = 9 ∧
     allOk (cwAccesses [2, 3] [[0, 1], [1, 0], [-1, -1]]) = true := by decide
+
+/-! ## Round 3 — histogram, lbp map, bbox fast path, relabel/remove_regions, distance_multi -/
+
+/-- **B7, histogram.** `compute_histogram` executes `++histogram[*data]` for the `N` elements of the array. Let the
+dtype be one the type switch of `py_histogram` admits (`histTypeRange ty = some (lo, hi)`: NPY_UBYTE, NPY_USHORT,
+NPY_UINT, NPY_ULONG, NPY_ULONGLONG — everything else is rejected with `RuntimeError` before any access), let the
+elements be values of that dtype, and let the histogram have the `int(img.max()) + 1` bins `fullhistogram` allocates
+(`histWrapperSize`; an empty array never reaches the kernel because `max()` raises). Then, for every array length
+and every content: every `data[i]` is in `[0, N)` and every bin index `histogram[data[i]]` is in `[0, max+1)`. -/
+theorem C10_histogram_in_bounds (ty : Nat) (lo hi : Int) (vals : List Int) (s : Int)
+    (hty : C10Misc.histTypeRange ty = some (lo, hi)) (hv : ∀ v ∈ vals, lo ≤ v ∧ v ≤ hi)
+    (hs : C10Misc.histWrapperSize vals = some s) :
+    ∀ a ∈ C10Misc.histAccesses vals s, 0 ≤ a.i ∧ a.i < a.size := by
+  have hlo := C10Misc.histTypeRange_lo ty lo hi hty
+  exact C10Misc.histAccesses_ok vals s (fun v h => by have := hv v h; omega)
+    (C10Misc.histWrapperSize_gt vals s hs)
+
+/-- **B7, histogram: the unsigned guard is needed.** (i) Every dtype the switch admits has no negative values.
+(ii) If the array could hold a negative value `v` (a signed dtype let through), the access `histogram[v]` is out of
+bounds whatever the number of bins — in particular for the wrapper's `max()+1`. (iii) A value `≥` the number of
+bins is out of bounds as well (a histogram shorter than `max()+1`, possible only in a direct native call). -/
+theorem C10_histogram_needs_unsigned :
+    (∀ ty lo hi, C10Misc.histTypeRange ty = some (lo, hi) → lo = 0) ∧
+    (∀ (vals : List Int) (s v : Int), v ∈ vals → (v < 0 ∨ s ≤ v) →
+      ¬ ∀ a ∈ C10Misc.histAccesses vals s, 0 ≤ a.i ∧ a.i < a.size) :=
+  ⟨C10Misc.histTypeRange_lo, fun vals s v hv hb => C10Misc.histAccesses_bad vals s v hv hb⟩
+
+/-! non-vacuity: an unsigned image; the same call with a negative element (bins = max()+1 = 4) leaves the buffer -/
+example : C10Misc.histWrapperSize [3, 0, 2, 3] = some 4 ∧ (C10Misc.histAccesses [3, 0, 2, 3] 4).length = 8 ∧
+    C10Misc.allOk (C10Misc.histAccesses [3, 0, 2, 3] 4) = true ∧
+    C10Misc.histWrapperSize [3, -1, 2] = some 4 ∧ C10Misc.allOk (C10Misc.histAccesses [3, -1, 2] 4) = false ∧
+    C10Misc.histTypeRange 5 = none ∧ C10Misc.histTypeRange 6 = some (0, 4294967295) := by decide
+
+/-- **lbp map.** `_lbp.map(codes, points)` for `0 ≤ points ≤ 32` (no guard in the entry point; `lbp.py` builds
+`np.arange(2**points, dtype=uint32)`, so `points ≤ 32` is what the uint32 code type can hold) and codes of `points`
+bits (`codes = Σ bit_k·2^k`, `k < points`): every `data[i]` is inside the array; the shift count `points-1` of every
+`roll_right` is in `[0, 32)`, the width of `npy_uint32`; the `i != points` loop leaves through its test; and the
+mapped code — the index into the `2^points`-entry pivot table (`final[pivots[:len(final)]]` with
+`len(final) = max code + 1`) — is `< 2^points`. Moreover for `points ≥ 1` the uint32 arithmetic never truncates:
+`roll_right` and `map` agree with the unbounded model of C19 (`C19.rollRight`, `C19.lbpMap`, the orbit minimum). -/
+theorem C10_lbp_map_in_bounds (P : Nat) (hP : P ≤ 32) :
+    (∀ codes : List Nat, (∀ v ∈ codes, v < 2 ^ P) →
+      ∀ a ∈ C10Misc.lbpAccesses (P : Int) codes, 0 ≤ a.i ∧ a.i < a.size) ∧
+    C10Misc.lbpDone (P : Int) = true ∧
+    (∀ v, v < 2 ^ P → C10Misc.lbpMap32 (P : Int) v < 2 ^ P) ∧
+    (1 ≤ P → ∀ v, v < 2 ^ P → C10Misc.rollRight32 (P : Int) v = C19.rollRight P v ∧
+      C10Misc.lbpMap32 (P : Int) v = C19.lbpMap P v) :=
+  ⟨fun codes hc => C10Misc.lbpAccesses_ok P hP codes hc, by simp [C10Misc.lbpDone],
+    fun v hv => C10Misc.lbpMap32_lt P v hP hv,
+    fun h1 v hv => ⟨C10Misc.rollRight32_eq P v h1 hP hv, C10Misc.lbpMap32_eq P v h1 hP hv⟩⟩
+
+/-! non-vacuity: 4-bit codes; `points = 33` shifts by 32; a 5-bit code under `points = 2` maps outside the table -/
+example : (C10Misc.lbpAccesses 4 [6, 9, 15]).length = 21 ∧ C10Misc.allOk (C10Misc.lbpAccesses 4 [6, 9, 15]) = true ∧
+    [6, 9, 15].map (C10Misc.lbpMap32 4) = [3, 3, 15] ∧
+    C10Misc.allOk (C10Misc.lbpAccesses 33 [1]) = false ∧ C10Misc.lbpMap32 2 16 = 4 ∧
+    C10Misc.allOk (C10Misc.lbpAccesses 2 [16]) = false ∧ C10Misc.lbpDone (-1) = false := by decide
+
+/-- **B7, bbox.** Fast path (`carray2_bbox`, C-contiguous 2-D array of `N0 × N1` elements, any `N0, N1 ≥ 0`, ANY
+content — `px` is an arbitrary predicate on pointer offsets): with `extrema = [N0, 0, N1, 0]` as `py_bbox` initialises
+it, every `*array` is read at a pointer offset in `[0, N0·N1)` with the column `x` in `[0, N1)` — including after the
+skip-ahead `step = extrema[3]-x-1; x += step; array += step`, because `extrema[3]` stays in `[0, N1]`, so the row loop
+ends with the pointer exactly at the start of the next row —; the `extrema[0..3]` accesses are inside the `2·nd = 4`
+entries; both loops leave through their tests; and the returned box satisfies `0 ≤ min_0, max_0 ≤ N0`,
+`0 ≤ min_1, max_1 ≤ N1` (so slicing with it stays inside the array). Generic path (`bbox`, any rank, shape, content):
+`where[j]`, `extrema[2j]`, `extrema[2j+1]`, `j < nd`, are inside `nd` resp. `2·nd` entries. -/
+theorem C10_bbox_in_bounds (px : Int → Bool) (n0 n1 : Nat) :
+    (∀ a ∈ (C10Misc.bboxFast px n0 n1).1, 0 ≤ a.i ∧ a.i < a.size) ∧ (C10Misc.bboxFast px n0 n1).2.2 = true ∧
+    (0 ≤ (C10Misc.bboxFast px n0 n1).2.1.e0 ∧ (C10Misc.bboxFast px n0 n1).2.1.e0 ≤ n0 ∧
+     0 ≤ (C10Misc.bboxFast px n0 n1).2.1.e1 ∧ (C10Misc.bboxFast px n0 n1).2.1.e1 ≤ n0 ∧
+     0 ≤ (C10Misc.bboxFast px n0 n1).2.1.e2 ∧ (C10Misc.bboxFast px n0 n1).2.1.e2 ≤ n1 ∧
+     0 ≤ (C10Misc.bboxFast px n0 n1).2.1.e3 ∧ (C10Misc.bboxFast px n0 n1).2.1.e3 ≤ n1) ∧
+    ∀ (shape : List Nat) (img : List Bool), ∀ a ∈ (C10Misc.bboxGen shape img).1, 0 ≤ a.i ∧ a.i < a.size :=
+  ⟨(C10Misc.bboxFast_ok px n0 n1).1, (C10Misc.bboxFast_ok px n0 n1).2.1, (C10Misc.bboxFast_ok px n0 n1).2.2,
+    fun shape img => C10Misc.bboxGen_ok shape img⟩
+
+/-! non-vacuity: a 3x4 image (skip-ahead taken in row 1); an initial `extrema[3] = 6 > N1` sends the pointer out -/
+example : (C10Misc.bboxFast (fun k => k == 2 || k == 4 || k == 9) 3 4).2.1 = ⟨0, 3, 0, 3⟩ ∧
+    (C10Misc.bboxFast (fun k => k == 2 || k == 4 || k == 9) 3 4).1.length = 30 ∧
+    C10Misc.allOk (C10Misc.bboxFast (fun k => k == 2 || k == 4 || k == 9) 3 4).1 = true ∧
+    C10Misc.allOk (C10Misc.bboxFast (fun k => k == 2 || k == 4 || k == 9) 3 4 6).1 = false ∧
+    (C10Misc.bboxGen [2, 3] [false, false, true, false, true, false]).2 = [0, 2, 1, 3] := by decide
+
+/-- **remove_regions, the search.** `std::lower_bound` on the window `[first, first+len)` of a buffer of `size`
+elements, for ARBITRARY outcomes of the comparisons `*middle < val` (the oracle `lt`; the array need not be sorted):
+every `*middle` is inside the window, hence inside the buffer; the loop ends (`len` at least halves); the returned
+index is in `[first, first+len]`. -/
+theorem C10_lower_bound_in_bounds (lt : Int → Bool) (size : Int) (f : Nat) (first len : Int)
+    (h0 : 0 ≤ first) (h1 : 0 ≤ len) (h2 : first + len ≤ size) (hf : len < f) :
+    (∀ a ∈ (C10Misc.lowerBound lt size f first len).1, 0 ≤ a.i ∧ a.i < a.size) ∧
+    first ≤ (C10Misc.lowerBound lt size f first len).2.1 ∧
+    (C10Misc.lowerBound lt size f first len).2.1 ≤ first + len ∧
+    (C10Misc.lowerBound lt size f first len).2.2 = true :=
+  C10Misc.lowerBound_spec lt size f first len h0 h1 h2 hf
+
+/-- **remove_regions.** For every `labeled` and every `regions` array (any lengths incl. 0, any content, sorted or
+not): every `data[i]` (read, and the write `data[i] = 0`), every `*middle` of `std::lower_bound` and the final `*i` of
+`std::binary_search` (read only when `i != last`) is inside its buffer; all loops end; the result has the length of
+the input. And when `regions` is sorted (what `np.unique` in `labeled.remove_regions` guarantees), the search
+answers membership: a label is zeroed iff it is non-zero and occurs in `regions`. -/
+theorem C10_remove_regions_in_bounds (regions labeled : List Int) :
+    (∀ a ∈ (C10Misc.removeRegions regions labeled).1, 0 ≤ a.i ∧ a.i < a.size) ∧
+    (C10Misc.removeRegions regions labeled).2.2 = true ∧
+    (C10Misc.removeRegions regions labeled).2.1.length = labeled.length ∧
+    ((∀ i j : Nat, i ≤ j → j < regions.length → regions.getD i 0 ≤ regions.getD j 0) →
+      ∀ val, (C10Misc.binarySearch regions val).2.1 = true ↔ val ∈ regions) :=
+  ⟨(C10Misc.removeRegions_ok regions labeled).1, (C10Misc.removeRegions_ok regions labeled).2.1,
+    (C10Misc.removeRegions_ok regions labeled).2.2, fun hs val => C10Misc.binarySearch_sorted regions val hs⟩
+
+example : (C10Misc.removeRegions [2, 5, 7] [0, 5, 3, 7, 9]).2.1 = [0, 0, 3, 0, 9] ∧
+    (C10Misc.removeRegions [2, 5, 7] [0, 5, 3, 7, 9]).1.length = 18 ∧
+    (C10Misc.removeRegions [] [4]).1.length = 1 ∧ (C10Misc.binarySearch [2, 5, 7] 9).2.1 = false := by decide
+
+/-- **relabel.** For every `labeled` array: `data[i]` (read and write) is inside the array; the result has the same
+length; the returned number of objects `n` satisfies `0 ≤ n ≤ N`; and every new label is in `[0, n]` — so any table
+with `n+1` entries indexed by the relabelled array (`labeled_sum`, `bbox`, `center_of_mass` with
+`max()+1` entries) is indexed in range. -/
+theorem C10_relabel_in_bounds (labeled : List Int) :
+    (∀ a ∈ (C10Misc.relabel labeled).1, 0 ≤ a.i ∧ a.i < a.size) ∧
+    (C10Misc.relabel labeled).2.1.length = labeled.length ∧
+    0 ≤ (C10Misc.relabel labeled).2.2 ∧ (C10Misc.relabel labeled).2.2 ≤ labeled.length ∧
+    ∀ w ∈ (C10Misc.relabel labeled).2.1, 0 ≤ w ∧ w ≤ (C10Misc.relabel labeled).2.2 :=
+  C10Misc.relabel_ok labeled
+
+example : (C10Misc.relabel [7, 0, -2, 7, 3]).2 = ([1, 0, 2, 1, 3], 3) ∧
+    (C10Misc.relabel [7, 0, -2, 7, 3]).1.length = 10 := by decide
+
+/-- **B6, distance_multi: `validposition` precedes every access.** For EVERY shape (any rank, axes of length 0
+included), every content of `array` and `res`, every list of deltas (`Bcs`: any number, any rank, any integers — so
+also what `neighbours_delta` yields for a structuring element of another rank, where the C++ adds uninitialised
+components) and every step budget of the queue loop: every position dereferenced by `distance_multi` — `*aiter`,
+`*riter`, `array.at(next)`, `res.data(next)` in both phases, and the `res.at(next)` of a popped queue entry, which is
+NOT itself preceded by `validposition` but was validated before it was pushed — is inside the array. The
+transliterated `validposition` (rank test, then `pos[i] < 0 || pos[i] >= dim(i)` per axis) is exactly `inside`. By
+`C10_ravel_lt` / `C10_line_address`-style arguments a position inside the box is an element for any strides. -/
+theorem C10_distance_multi_in_bounds (shape : List Nat) (img : List Bool) (res : List Int)
+    (deltas : List (List Int)) (fuel : Nat) :
+    (∀ a ∈ (C10Misc.dmRun true shape img res deltas fuel).1, inside a.shape a.pos = true) ∧
+    ∀ pos, C10Misc.validPosition shape pos = true ↔ inside shape pos = true :=
+  ⟨C10Misc.dmRun_ok shape img res deltas fuel,
+    fun pos => ⟨C10Misc.validPosition_inside shape pos, C10Misc.inside_validPosition shape pos⟩⟩
+
+/-- **distance_multi: the native guards do not suffice.** `neighbours_delta` starts with
+`numpy::position accumulated = rs[0];` unconditionally: its vector accesses are in range iff the structuring element
+has at least one set element other than its centre. `py_distance_multi` checks types and `same_shape(array, res)`
+only (`nativeGuards_morph_distance_multi`): an all-False, centre-only or 0-d `Bc` reads `rs[0]` of an empty vector
+(observed: SIGSEGV / ASan SEGV in `neighbours_delta`). A rank mismatch between `Bc` and `array` is not checked
+either, but is harmless for memory by `C10_distance_multi_in_bounds`. -/
+theorem C10_distance_multi_needs_neighbour (rs : List (List Int)) :
+    (∀ a ∈ (C10Misc.neighboursDelta rs).1, 0 ≤ a.i ∧ a.i < a.size) ↔ rs ≠ [] :=
+  C10Misc.neighboursDelta_ok_iff rs
+
+/-! non-vacuity: a 2x3 image with the cross; without `validposition` positions leave the array; centre-only `Bc` -/
+example : C10Misc.neighbours [3, 3] [false, true, false, true, true, true, false, true, false] =
+      [[-1, 0], [0, -1], [0, 1], [1, 0]] ∧
+    (C10Misc.neighboursDelta [[-1, 0], [0, -1], [0, 1], [1, 0]]).2 = [[-1, 0], [1, -1], [0, 2], [1, -1]] ∧
+    (C10Misc.dmRun true [2, 3] [true, true, false, true, true, true] [99, 99, 99, 99, 99, 99]
+      [[-1, 0], [1, -1], [0, 2], [1, -1]] 50).2 = ([4, 1, 0, 5, 2, 1], true) ∧
+    ((C10Misc.dmRun false [2, 3] [true, true, false, true, true, true] [99, 99, 99, 99, 99, 99]
+      [[-1, 0], [1, -1], [0, 2], [1, -1]] 50).1.all C10Misc.PAcc.ok) = false ∧
+    C10Misc.neighbours [3, 3] [false, false, false, false, true, false, false, false, false] = [] ∧
+    C10Misc.allOk (C10Misc.neighboursDelta []).1 = false := by decide
